@@ -1,9 +1,9 @@
 CONSTANTS
-  Names <- NamesT
+  Names <- NamesQ
   Unsent = "z"
-  Scripts <- ScriptsT
+  Scripts <- ScriptsQ
   MaxLen = 3
-  MaxDeps = 1
+  MaxDeps = 2
 INIT Init
 NEXT Next
 INVARIANT LoopMeetsSpecOutcome
